@@ -464,23 +464,32 @@ def pinvh(A, *a, **k):
 
 
 def matrix_rank(A, *a, **k):
+  """exact rank over the reals through minors (forks on `minor != 0`): any shape with min(n, m) <= 3"""
   A = _conc(A)
   if not _isobj(A):
     return _np.linalg.matrix_rank(A, *a, **k)
-  A, d = _sq(A)
-  dt = det(A)
-  if bool(dt != 0):
-    return d
-  if d == 1:
-    return 0
-  if d == 2:
-    nz = False
-    for v in A.flat:
-      if bool(v != 0):
-        nz = True
-        break
-    return 1 if nz else 0
-  raise core.SymbolicRealisation('rank of singular 3x3 not modelled')
+  A = _np.asarray(A, dtype=object)
+  if A.ndim != 2:
+    raise core.SymbolicRealisation('matrix_rank of a non-matrix')
+  n, m = A.shape
+  r = min(n, m)
+  if r > 3:
+    raise core.SymbolicRealisation('rank of a symbolic matrix with min(shape) > 3 not modelled')
+  import itertools
+
+  def minor(rows, cols):
+    kk = len(rows)
+    if kk == 1:
+      return A[rows[0], cols[0]]
+    if kk == 2:
+      return A[rows[0], cols[0]] * A[rows[1], cols[1]] - A[rows[0], cols[1]] * A[rows[1], cols[0]]
+    return sum(((-1) ** j) * A[rows[0], cols[j]] * minor(rows[1:], cols[:j] + cols[j + 1:]) for j in range(3))
+  for kk in range(r, 0, -1):
+    for rows in itertools.combinations(range(n), kk):
+      for cols in itertools.combinations(range(m), kk):
+        if bool(minor(list(rows), list(cols)) != 0):
+          return kk
+  return 0
 
 
 def np_eigvalsh(A, *a, **k):
